@@ -1108,9 +1108,13 @@ class Exec:
         if op == 'trunc':
             return z3.Extract(dt.bits - 1, 0, x)
         if op == 'sitofp':
-            return z3.fpSignedToFP(RNE, x, FPSORT(dt.bits))
+            r = z3.fpSignedToFP(RNE, x, FPSORT(dt.bits))
+            self.arith_log.append(dict(op='sitofp', g=g, x=x, y=None, r=r, fn=fn))
+            return r
         if op == 'uitofp':
-            return z3.fpUnsignedToFP(RNE, x, FPSORT(dt.bits))
+            r = z3.fpUnsignedToFP(RNE, x, FPSORT(dt.bits))
+            self.arith_log.append(dict(op='uitofp', g=g, x=x, y=None, r=r, fn=fn))
+            return r
         if op in ('fptosi', 'fptoui'):
             signed = op == 'fptosi'
             r = z3.fpToSBV(z3.RTZ(), x, z3.BitVecSort(dt.bits)) if signed else z3.fpToUBV(z3.RTZ(), x, z3.BitVecSort(dt.bits))
@@ -1211,6 +1215,21 @@ class Exec:
             return z3.If(c, x, y)
         if base == 'fabs':
             return z3.fpAbs(args[0])
+        if base == 'fmuladd':
+            # baseline x86-64 has no FMA: a*b+c is two roundings (clang -O0 and gcc without -mfma); stated as an assumption
+            return z3.fpAdd(RNE, z3.fpMul(RNE, args[0], args[1]), args[2])
+        if base == 'fma':
+            return z3.fpFMA(RNE, args[0], args[1], args[2])
+        if base == 'floor':
+            return z3.fpRoundToIntegral(z3.RTN(), args[0])
+        if base == 'ceil':
+            return z3.fpRoundToIntegral(z3.RTP(), args[0])
+        if base == 'trunc':
+            return z3.fpRoundToIntegral(z3.RTZ(), args[0])
+        if base == 'copysign':
+            return z3.If(z3.fpIsNegative(args[1]), z3.fpNeg(z3.fpAbs(args[0])), z3.fpAbs(args[0]))
+        if base == 'sqrt':
+            return z3.fpSqrt(RNE, args[0])
         if base in ('memcpy', 'memmove', 'memset'):
             h = self.stubs.get('llvm.' + base)
             if h is None:
